@@ -34,7 +34,12 @@ pub fn drive(t: &mut Tracer, r: &mut Rng, n: usize) {
     let tunits = ["day", "hour", "minute", "second", "millisecond", "microsecond", "nanosecond"];
     while t.n < n {
         match r.range(0, 9) {
-            0 | 1 => { t.call("Duration.new", json!({"dur": any_vector(r)})); }
+            0 => { t.call("Duration.new", json!({"dur": any_vector(r)})); }
+            1 => { // the same kind of vector as a property bag with a random subset of its fields (sometimes none, sometimes all)
+                let v = any_vector(r); let mut p = serde_json::Map::new();
+                let keep = match r.range(0, 5) { 0 => 0, 1 => 100, _ => r.range(10, 90) };
+                for (k, x) in v.as_object().unwrap() { if r.range(0, 99) < keep { p.insert(k.clone(), x.clone()); } }
+                t.call("Duration.fromPartial", json!({"p": Value::Object(p)})); }
             2 => { let d = if r.chance(1, 3) { cal_dur(r) } else { time_day_dur(r) };
                    t.call("Duration.negated", json!({"recv": d.clone()})); t.call("Duration.abs", json!({"recv": d.clone()})); t.call("Duration.sign", json!({"recv": d})); }
             3 | 4 => { let a = if r.chance(1, 8) { cal_dur(r) } else { time_day_dur(r) }; let b = if r.chance(1, 8) { cal_dur(r) } else { time_day_dur(r) };
